@@ -21,6 +21,7 @@ open Callbacks Extracted.Locations
 inductive Loc
   | line (path : String) (line : Int)      -- LineLocation(path, line)
   | func (path : String) (name : String)   -- FunctionLocation(path, method_name)
+  | nosource (path : String)               -- FunctionLocation(path, None) on a file whose source is not available
 deriving DecidableEq, Repr
 
 /-- a tracepoint (from the service or registered in code): where, and what to do there -/
@@ -35,15 +36,21 @@ structure Trig where
   actions : List Action
 deriving DecidableEq, Repr
 
-def Loc.atLocation (l : Loc) (event file : String) (lineno : Int) (function : String) : Bool :=
+/-- `location.at_location(..)`: `none` = it raises (a method tracepoint without a method name reads the source
+    lines of the frame; `nosource` stands for such a tracepoint on a file whose source is not available) -/
+def Loc.atLocation (l : Loc) (event file : String) (lineno : Int) (function : String) : Option Bool :=
   match l with
-  | Loc.line p n => lineAtLocation p n event file lineno function
-  | Loc.func p f => funcAtLocation p f event file lineno function
+  | Loc.line p n => some (lineAtLocation p n event file lineno function)
+  | Loc.func p f => some (funcAtLocation p f event file lineno function)
+  | Loc.nosource p => funcAtLocationNoSource p event file lineno function
 
 /-- `trigger.at_location(event, file, line, function, frame)` with the values `location_from_event` computes -/
-def Loc.matches (l : Loc) (ev : Event) : Bool :=
+def Loc.check (l : Loc) (ev : Event) : Option Bool :=
   match locationFromEvent ev.kind ev.path ev.line ev.func with
   | (event, file, lineno, function) => l.atLocation event file lineno function
+
+/-- the location says "here" -/
+def Loc.matches (l : Loc) (ev : Event) : Bool := l.check ev == some true
 
 def Tp.build (tp : Tp) : Trig := ⟨tp.loc, tp.actions⟩
 
@@ -54,8 +61,10 @@ def Trig.merge (t u : Trig) : Trig := ⟨t.loc, t.actions ++ u.actions⟩
 def install (resp custom : List Tp) : List Trig :=
   convertResponse (fun t => t.loc) Trig.merge (resp.map (fun tp => some tp.build)) ++ custom.map Tp.build
 
+/-- `__actions_for_location`; should the exception of a trigger that cannot be matched leave the function, the
+    catch-all of `trace_call` ends the event with no action (`[]`: `stepWith` then returns after the callbacks) -/
 def actionsFor (cfg : List Trig) (ev : Event) : List Action :=
-  actionsForLocation (fun t => t.loc.matches ev) (fun t => t.actions) cfg
+  (actionsForLocation (fun t => t.loc.check ev) (fun t => t.actions) cfg).getD []
 
 /-- one `trace_call` of a thread -/
 def traceCall (cfg : List Trig) (slot : Option (List Ctx)) (ev : Event) : Option (List Ctx) × List Eff :=
